@@ -32,6 +32,9 @@ type Config struct {
 	// FromBuilder: the server's option lists come out of a ServerBuilder that was given
 	// Enc/Comp through EncryptionOptions/CompressionOptions (the documented way to demand TLS)
 	FromBuilder bool
+	// RealAuth: Authenticate is the one the ServerBuilder assembles (buildAuthenticate over
+	// the registered plain/key/external authenticators, which accept exactly one credential each)
+	RealAuth bool
 }
 
 const (
@@ -42,13 +45,14 @@ const (
 )
 
 var Configs = []Config{
-	{"guest/none", []lime.AuthenticationScheme{lime.AuthenticationSchemeGuest}, []lime.SessionEncryption{none}, []lime.SessionCompression{cno}, false, false},
-	{"plain/none+tls", []lime.AuthenticationScheme{lime.AuthenticationSchemePlain}, []lime.SessionEncryption{none, tlsE}, []lime.SessionCompression{cno}, true, false},
-	{"plain+key/tls-only", []lime.AuthenticationScheme{lime.AuthenticationSchemePlain, lime.AuthenticationSchemeKey}, []lime.SessionEncryption{tlsE}, []lime.SessionCompression{cno}, true, false},
-	{"guest+plain+external/tls+none/gzip", []lime.AuthenticationScheme{lime.AuthenticationSchemeGuest, lime.AuthenticationSchemePlain, lime.AuthenticationSchemeExternal}, []lime.SessionEncryption{tlsE, none}, []lime.SessionCompression{cno, gz}, true, false},
-	{"transport/none+tls/no-tlsconfig", []lime.AuthenticationScheme{lime.AuthenticationSchemeTransport}, []lime.SessionEncryption{none, tlsE}, []lime.SessionCompression{cno}, false, false},
+	{"guest/none", []lime.AuthenticationScheme{lime.AuthenticationSchemeGuest}, []lime.SessionEncryption{none}, []lime.SessionCompression{cno}, false, false, false},
+	{"plain/none+tls", []lime.AuthenticationScheme{lime.AuthenticationSchemePlain}, []lime.SessionEncryption{none, tlsE}, []lime.SessionCompression{cno}, true, false, false},
+	{"plain+key/tls-only", []lime.AuthenticationScheme{lime.AuthenticationSchemePlain, lime.AuthenticationSchemeKey}, []lime.SessionEncryption{tlsE}, []lime.SessionCompression{cno}, true, false, false},
+	{"guest+plain+external/tls+none/gzip", []lime.AuthenticationScheme{lime.AuthenticationSchemeGuest, lime.AuthenticationSchemePlain, lime.AuthenticationSchemeExternal}, []lime.SessionEncryption{tlsE, none}, []lime.SessionCompression{cno, gz}, true, false, false},
+	{"transport/none+tls/no-tlsconfig", []lime.AuthenticationScheme{lime.AuthenticationSchemeTransport}, []lime.SessionEncryption{none, tlsE}, []lime.SessionCompression{cno}, false, false, false},
 	{Name: "builder:transport+guest/tls-only", Schemes: []lime.AuthenticationScheme{lime.AuthenticationSchemeTransport, lime.AuthenticationSchemeGuest}, Enc: []lime.SessionEncryption{tlsE}, Comp: []lime.SessionCompression{cno}, TLS: true, FromBuilder: true},
-	{"guest/none/gzip-only", []lime.AuthenticationScheme{lime.AuthenticationSchemeGuest}, []lime.SessionEncryption{none}, []lime.SessionCompression{gz}, false, false},
+	{Name: "builder-auth:transport+guest+plain+key+external/none", Schemes: []lime.AuthenticationScheme{lime.AuthenticationSchemeTransport, lime.AuthenticationSchemeGuest, lime.AuthenticationSchemePlain, lime.AuthenticationSchemeKey, lime.AuthenticationSchemeExternal}, Enc: []lime.SessionEncryption{none}, Comp: []lime.SessionCompression{cno}, FromBuilder: true, RealAuth: true},
+	{"guest/none/gzip-only", []lime.AuthenticationScheme{lime.AuthenticationSchemeGuest}, []lime.SessionEncryption{none}, []lime.SessionCompression{gz}, false, false, false},
 }
 
 // what a TCP transport reports as supported
@@ -127,6 +131,10 @@ func alphabet() []input {
 	}
 	a = append(a, input{name: "auth(guest;from=mallory)", kind: "session", state: "authenticating", id: "echo", scheme: "guest", auth: "obj", from: "mallory@cli.test/home"})
 	a = append(a, input{name: "auth(plain;from=mallory)", kind: "session", state: "authenticating", id: "echo", scheme: "plain", auth: "obj", from: "mallory@cli.test/home"})
+	a = append(a, input{name: "auth(plain,wrong-password)", kind: "session", state: "authenticating", id: "echo", scheme: "plain", auth: "bad"})
+	a = append(a, input{name: "auth(plain,bad-base64)", kind: "session", state: "authenticating", id: "echo", scheme: "plain", auth: "b64"})
+	a = append(a, input{name: "auth(key,wrong-key)", kind: "session", state: "authenticating", id: "echo", scheme: "key", auth: "bad"})
+	a = append(a, input{name: "auth(external,wrong-issuer)", kind: "session", state: "authenticating", id: "echo", scheme: "external", auth: "bad"})
 	a = append(a, input{name: "auth(zzz,noauth)", kind: "session", state: "authenticating", id: "echo", scheme: "zzz"})
 	a = append(a, input{name: "auth(noscheme)", kind: "session", state: "authenticating", id: "echo"})
 	a = append(a, input{name: "auth(guest,noauthobj)", kind: "session", state: "authenticating", id: "echo", scheme: "guest"})
@@ -150,6 +158,23 @@ func alphabet() []input {
 }
 
 const clientNode = "alice@cli.test/home"
+
+func authObjKind(scheme, kind string) interface{} {
+	switch kind {
+	case "bad":
+		switch scheme {
+		case "plain":
+			return map[string]string{"password": "d3Jvbmc="} // "wrong"
+		case "key":
+			return map[string]string{"key": "d3Jvbmc="}
+		case "external":
+			return map[string]string{"token": "tok", "issuer": "evil"}
+		}
+	case "b64":
+		return map[string]string{"password": "!!!not-base64!!!"}
+	}
+	return authObj(scheme)
+}
 
 func authObj(scheme string) interface{} {
 	switch scheme {
@@ -184,7 +209,7 @@ func (in input) bytes(sid string) []byte {
 		m["scheme"] = in.scheme
 	}
 	if in.auth != "" {
-		m["authentication"] = authObj(in.scheme)
+		m["authentication"] = authObjKind(in.scheme, in.auth)
 	}
 	if in.state == "authenticating" {
 		m["from"] = in.sender()
@@ -196,13 +221,15 @@ func (in input) bytes(sid string) []byte {
 // ---- observations ------------------------------------------------------------------
 
 type authCall struct {
-	identity string
-	scheme   string
-	canon    string
-	outcome  int
-	encAt    string // server transport encryption when the callback ran
-	afterFin bool
-	step     int
+	identity     string
+	scheme       string
+	canon        string
+	outcome      int
+	encAt        string // server transport encryption when the callback ran
+	afterFin     bool
+	step         int
+	real         bool // produced by the ServerBuilder's own Authenticate
+	shouldAccept bool // (real only) the presented credential is the one the registered authenticator accepts
 }
 
 type regCall struct {
@@ -360,7 +387,8 @@ func body(variant string, cfgs []Config, depth int, allowTLSRefusal bool) func(x
 			tcpCfg.TLSConfig = lib.TLSServerConfig()
 		}
 		curStep := func() int { return len(r.steps) }
-		authenticate := func(ctx context.Context, id lime.Identity, a lime.Authentication) (*lime.AuthenticationResult, error) {
+		var authenticate func(ctx context.Context, id lime.Identity, a lime.Authentication) (*lime.AuthenticationResult, error)
+		authenticate = func(ctx context.Context, id lime.Identity, a lime.Authentication) (*lime.AuthenticationResult, error) {
 			c := authCall{identity: id.String(), canon: lib.Canon(a), step: curStep(), afterFin: r.failedSeen}
 			if a != nil {
 				c.scheme = string(a.GetAuthenticationScheme())
@@ -386,6 +414,54 @@ func body(variant string, cfgs []Config, depth int, allowTLSRefusal bool) func(x
 				return nil, errors.New("authenticate callback error")
 			}
 			return &lime.AuthenticationResult{Role: ""}, nil
+		}
+		if cfg.RealAuth {
+			// the builder's own dispatch over authenticators that accept exactly one credential
+			b := lime.NewServerBuilder().
+				EnableGuestAuthentication().
+				EnablePlainAuthentication(func(ctx context.Context, id lime.Identity, pw string) (*lime.AuthenticationResult, error) {
+					if id.Name == "alice" && pw == "secret" {
+						return lime.MemberAuthenticationResult(), nil
+					}
+					return lime.UnknownAuthenticationResult(), nil
+				}).
+				EnableKeyAuthentication(func(ctx context.Context, id lime.Identity, key string) (*lime.AuthenticationResult, error) {
+					if id.Name == "alice" && key == "key" {
+						return lime.MemberAuthenticationResult(), nil
+					}
+					return lime.UnknownAuthenticationResult(), nil
+				}).
+				EnableExternalAuthentication(func(ctx context.Context, id lime.Identity, token, issuer string) (*lime.AuthenticationResult, error) {
+					if id.Name == "alice" && token == "tok" && issuer == "iss" {
+						return lime.MemberAuthenticationResult(), nil
+					}
+					return lime.UnknownAuthenticationResult(), nil
+				})
+			realAuth := b.ConfigForVerif().Authenticate
+			authenticate = func(ctx context.Context, id lime.Identity, a lime.Authentication) (*lime.AuthenticationResult, error) {
+				c := authCall{identity: id.String(), canon: lib.Canon(a), step: curStep(), afterFin: r.failedSeen}
+				if a != nil {
+					c.scheme = string(a.GetAuthenticationScheme())
+				}
+				if r.srvTr != nil {
+					c.encAt = string(r.srvTr.Encryption())
+				}
+				res, err := realAuth(ctx, id, a)
+				switch {
+				case err != nil:
+					c.outcome = 3
+				case res != nil && res.Role != "" && res.Role != lime.DomainRoleUnknown:
+					c.outcome = 0
+				default:
+					c.outcome = 1
+				}
+				// what the registered authenticators would accept, decided independently
+				c.shouldAccept = id.Name == "alice" && a != nil && (c.canon == `{"password":"c2VjcmV0"}` && c.scheme == "plain" || c.canon == `{"key":"a2V5"}` && c.scheme == "key" || c.canon == `{"token":"tok","issuer":"iss"}` && c.scheme == "external")
+				c.real = true
+				r.auths = append(r.auths, c)
+				x.Obs("authenticate(real) %s %s -> %d", c.identity, c.scheme, c.outcome)
+				return res, err
+			}
 		}
 		register := func(ctx context.Context, cand lime.Node, c *lime.ServerChannel) (lime.Node, error) {
 			rc := regCall{candidate: cand.String(), outcome: rt.Choose(3)}
@@ -926,6 +1002,9 @@ func judge(prop string) func(x *harness.X, res *rt.Result) {
 							x.Failf("C03:unoffered-scheme-authenticated", "Authenticate called for scheme %q which was not offered %s", ac.scheme, script())
 						}
 					}
+					if want("C03") && ac.real && (ac.outcome == 0) != ac.shouldAccept {
+						x.Failf("C03:builder-authenticate-dispatch", "the ServerBuilder's Authenticate returned outcome %d for (%s,%s,%s) but the registered authenticator accepts it: %v %s", ac.outcome, ac.identity, ac.scheme, ac.canon, ac.shouldAccept, script())
+					}
 					// -- C10: never consult credentials over cleartext when none is not configured
 					if want("C10") && noCleartextCfg(cfg) && ac.encAt != "tls" {
 						x.Failf("C10:authenticate-over-cleartext", "Authenticate ran while the connection encryption was %q (configured %v) %s", ac.encAt, cfg.Enc, script())
@@ -1104,6 +1183,19 @@ func noCleartextCfg(c Config) bool {
 }
 
 func authObjTyped(in input) lime.Authentication {
+	switch in.auth {
+	case "bad":
+		switch in.scheme {
+		case "plain":
+			return &lime.PlainAuthentication{Password: "d3Jvbmc="}
+		case "key":
+			return &lime.KeyAuthentication{Key: "d3Jvbmc="}
+		case "external":
+			return &lime.ExternalAuthentication{Token: "tok", Issuer: "evil"}
+		}
+	case "b64":
+		return &lime.PlainAuthentication{Password: "!!!not-base64!!!"}
+	}
 	switch in.scheme {
 	case "guest":
 		return &lime.GuestAuthentication{}
